@@ -57,6 +57,11 @@ def gen_cases(tier, seed):
             cases.append(dict(kind="direct", routine=r, far=bool(i % 2),
                               seed=int(rng.integers(1 << 30)),
                               cost=6 if r in ("encoder", "mrq_cp", "ppo") else 3))
+    for r in ROUTINES:
+        if r.startswith("ts_") and r not in ("ts_sac", "ts_td3lap"):
+            for i in range(max(1, k // 4)):
+                cases.append(dict(kind="direct", routine=r, far=False, tiny=True,
+                                  seed=int(rng.integers(1 << 30)), cost=3))
     for i in range(2 * k):
         cases.append(dict(kind="nochange", seed=int(rng.integers(1 << 30)), cost=5))
     for algo in LOOP_ALGOS:
@@ -73,7 +78,21 @@ def run_case(case):
 
 
 # ------------------------------------------------------------------ builders
-def build(routine, rng, far=False):
+def _tiny(rng, batch, *critics):
+    """Value scale of about 1e-8 (round 9): all parameters of the critics times
+    1e-4 (outputs ~1e-8) and rewards ~1e-8, so that every gradient entry is tiny
+    (<= ~1e-7) but the gradient is not zero (the output-bias entry is the mean
+    TD error).  Adam rescales it: the unchanged routine moves the output bias
+    by about half the learning rate."""
+    import jax.numpy as jnp
+
+    for c in critics:
+        parts.rescale(c, 1e-4)
+    r = (rng.normal(size=batch.reward.shape) + 3.0) * 1e-8
+    return batch._replace(reward=jnp.asarray(r, jnp.float32))
+
+
+def build(routine, rng, far=False, tiny=False):
     """-> (call, objects dict, trainee names)"""
     import jax
     import jax.numpy as jnp
@@ -88,6 +107,8 @@ def build(routine, rng, far=False):
             q, qt = parts.mlp(rng, 3, 3), parts.mlp(rng, 3, 3)
             o = parts.opt(q)
             batch = parts.flat_batch(rng, N, discrete=3)
+            if tiny:
+                batch = _tiny(rng, batch, q, qt)
             objs = dict(q=q, q_opt=o, q_target=qt)
             if routine == "ts_dqn":
                 call = lambda: dqn.train_step_with_loss(L.dqn_loss, o, q, batch, 0.9)  # noqa: E731
@@ -111,10 +132,14 @@ def build(routine, rng, far=False):
             q, qt = parts.mlp(rng, 5, 1), parts.mlp(rng, 5, 1)
             pt = parts.tanh_policy(rng, space)
             o = parts.opt(q)
+            if tiny:
+                batch = _tiny(rng, batch, q, qt)
             call = lambda: dqn.train_step_with_loss(L.ddpg_loss, o, q, qt, pt, batch, 0.9)  # noqa: E731
             return call, dict(q=q, q_opt=o, q_target=qt, policy_target=pt), {"q", "q_opt"}
         q, qt = parts.double_q(rng, 5), parts.double_q(rng, 5)
         o = parts.opt(q)
+        if tiny:
+            batch = _tiny(rng, batch, q, qt)
         na = jnp.asarray(rng.normal(size=(N, 2)), jnp.float32)
         if routine == "ts_td3":
             call = lambda: dqn.train_step_with_loss(L.td3_loss, o, q, qt, na, batch, 0.9)  # noqa: E731
@@ -379,7 +404,7 @@ def run_direct(case):
     rng = np.random.default_rng(case["seed"])
     routine = case["routine"]
     ok, built = guarded(res, f"C05/raises/build/{routine}", build, routine, rng,
-                        case.get("far", False))
+                        case.get("far", False), case.get("tiny", False))
     if not ok:
         return res
     call, objs, trainees = built
@@ -387,7 +412,8 @@ def run_direct(case):
     # are bystanders of the first agent's update (no state shared through
     # default arguments, class attributes or module-level caches)
     ok, sib = guarded(res, f"C05/raises/build/{routine}", build, routine,
-                      np.random.default_rng(case["seed"] + 17), case.get("far", False))
+                      np.random.default_rng(case["seed"] + 17), case.get("far", False),
+                      case.get("tiny", False))
     if not ok:
         return res
     objs = dict(objs)
@@ -418,6 +444,8 @@ def run_direct(case):
                       f"(random batch, non-degenerate parameters)")
         return res
     res.see("trainee_changed_checks")
+    if case.get("tiny"):
+        res.see("tiny_gradient_updates_checked")
     res.nontrivial = bystanders >= 1
     res.state((routine,))
     return res
